@@ -383,6 +383,69 @@ func (t *Termer) term(v ssa.Value) string {
 		s := t.T(x.X) + "[" + t.T(x.Index) + "]"
 		return s
 	case *ssa.Slice:
+		if a, ok := x.X.(*ssa.Alloc); ok && x.Low == nil && x.High == nil && x.Max == nil {
+			if at, ok := a.Type().(*types.Pointer).Elem().Underlying().(*types.Array); ok && at.Len() <= 8 && len(t.active) < 30 {
+				// array temporary (variadic arguments, composite slice literal): render the elements
+				elems := make([]string, at.Len())
+				for i := range elems {
+					elems[i] = "zero"
+				}
+				okAll := true
+				if refs := a.Referrers(); refs != nil {
+					for _, r := range *refs {
+						ia, isIA := r.(*ssa.IndexAddr)
+						if !isIA {
+							continue
+						}
+						k, isK := ia.Index.(*ssa.Const)
+						if !isK {
+							okAll = false
+							continue
+						}
+						idx := int(k.Int64())
+						if idx < 0 || idx >= len(elems) {
+							continue
+						}
+						if irefs := ia.Referrers(); irefs != nil {
+							fields := map[string]string{}
+							for _, u := range *irefs {
+								switch st := u.(type) {
+								case *ssa.Store:
+									if st.Addr == ia {
+										elems[idx] = t.T(st.Val)
+									}
+								case *ssa.FieldAddr:
+									fv, _ := fieldOf(st)
+									if frefs := st.Referrers(); frefs != nil && fv != nil {
+										for _, fu := range *frefs {
+											if fs, ok := fu.(*ssa.Store); ok && fs.Addr == st {
+												fields[fv.Name()] = t.T(fs.Val)
+											}
+										}
+									}
+								}
+							}
+							if len(fields) > 0 {
+								if stt, ok := at.Elem().Underlying().(*types.Struct); ok {
+									var parts []string
+									for fi := 0; fi < stt.NumFields(); fi++ {
+										v := fields[stt.Field(fi).Name()]
+										if v == "" {
+											v = "zero"
+										}
+										parts = append(parts, stt.Field(fi).Name()+": "+v)
+									}
+									elems[idx] = TypeStr(at.Elem()) + "{" + strings.Join(parts, ", ") + "}"
+								}
+							}
+						}
+					}
+				}
+				if okAll {
+					return "[" + strings.Join(elems, ", ") + "]"
+				}
+			}
+		}
 		lo, hi, mx := "", "", ""
 		if x.Low != nil {
 			lo = t.T(x.Low)
